@@ -40,7 +40,8 @@ class FileSystemArtifactStore(SerializedArtifactStore):
 
     def _ensure_dir(self) -> Path:
         model_name = self.ctx.model_name.value if isinstance(self.ctx.model_name, Enum) else self.ctx.model_name
-        path = Path(self.artifact_dir / model_name / str(self.ctx.pipeline_id))
+        # The model name and the pipeline id are parts of the key as well, not paths
+        path = Path(self.artifact_dir / self._get_file_stem(model_name) / self._get_file_stem(self.ctx.pipeline_id))
 
         if not path.exists():
             path.mkdir(parents=True)
